@@ -154,7 +154,11 @@ class Vector(object):
 
     def angle(self, other):
         """Returns the angle (in radians) enclosed by both vectors."""
-        return math.acos((self * other) / (self.length() * other.length()))
+        cosine = (self * other) / (self.length() * other.length())
+        # rounding may push the cosine of (anti)parallel vectors slightly
+        # outside [-1, 1]
+        cosine = max(-1.0, min(1.0, cosine))
+        return math.acos(cosine)
 
     def normalized(self):
         """Return the normalized version of the vector, that is a vector
